@@ -218,15 +218,39 @@ def all_cases(ctx):
     return cases
 
 
+def model_case(ctx, case):
+    """B (state machines of Model/Mutable.lean, Model/Mutable2.lean): the same single assignment on the Lean
+    driver; the full private state and the model's closed-form getters afterwards must equal the live object's
+    (so the read-back theorems of Props/C08.lean speak about what the implementation computes)."""
+    import c03
+    cls, prop, mode, val = case["cls"], case["prop"], case["mode"], case["value"]
+    if cls not in sc.VERTEX_CLASSES:
+        return
+    if is_shape_parameter(cls, prop):
+        if mode == "pos":
+            rng = np.random.default_rng(case["base_seed"])
+            val = float(getattr(sc.base_shape(rng, cls, case["flavour"]), prop)) * val
+        op = ["setabs", prop, float(val)]
+    else:
+        op = [{"pos": "setfac", "bad": "setbad", "vec": "setvec"}[mode], prop, val]
+    c03.model_history(ctx, case["base_seed"], case["flavour"], [op], cls)
+
+
 def run(ctx):
     for case in all_cases(ctx):
         ctx.case(case)
         ctx.count("cls:" + case["cls"])
         ctx.count("mode:" + case["mode"])
         eval_case(ctx, case)
+        model_case(ctx, case)
 
 
 def replay(ctx, payload):
     case = payload.get("case", payload)
     ctx.case(case)
+    if "ops" in case:       # a state-machine disagreement recorded by model_case
+        import c03
+        c03.model_history(ctx, case["base_seed"], case["flavour"], case["ops"], case["cls"])
+        return
     eval_case(ctx, case)
+    model_case(ctx, case)
